@@ -334,6 +334,15 @@ brk("c17-catch-narrowed", ["C17"], (C, "        except Exception:\n            #
 brk("c17-validate-skipped", ["C17"], (C, "        # Ensure that cbor2.loads() will not consume all the available memory\n        SuitObject.validate_cbor(cbstr)\n", "        # Ensure that cbor2.loads() will not consume all the available memory\n"))
 brk("c17-from-cbor-non-bytes", ["C17"], (C, "                value[child[0]] = child[1].from_cbor(cls.ensure_cbor(v))\n        return cls(value)\n\n    def to_cbor(self) -> bytes:\n        \"\"\"Dump SUIT representation to cbor encoded bytes.\"\"\"\n        data = {}", "                value[child[0]] = child[1].from_cbor(v)\n        return cls(value)\n\n    def to_cbor(self) -> bytes:\n        \"\"\"Dump SUIT representation to cbor encoded bytes.\"\"\"\n        data = {}"))
 brk("c17-version-wrap-cycle-guard-removed-new-cycle", ["C17"], (SEC, "            \"recipients*\": SuitList,", "            \"recipients*\": cbstr(SuitList),"), (SEC, 'CoseRecipient._metadata.map["recipients*"] = CoseRecipientList', 'CoseRecipient._metadata.map["recipients*"] = cbstr(CoseRecipientList)'))
+brk("c17-unfix-shared-values", ["C17"], (C, "        SuitObject.reject_shared_values(data)\n        return data\n", "        return data\n"))
+brk("c17-shared-guard-skips-maps", ["C17"], (C, "            elif isinstance(item, Mapping):\n                children = [*item.keys(), *item.values()]\n", ""))
+brk("c17-shared-guard-wrong-error", ["C17"], (C, '                raise ValueError("CBOR shared values are not supported!")', '                raise RuntimeError("CBOR shared values are not supported!")'))
+brk("c17-validate-after-loads", ["C17"], (C, "        SuitObject.validate_cbor(cbstr)\n        try:\n            data = cbor2.loads(cbstr)\n", "        try:\n            data = cbor2.loads(cbstr)\n            SuitObject.validate_cbor(cbstr)\n"))
+brk("c17-length-check-inverted", ["C17"], (C, "        if requested_memory_len and requested_memory_len > len(cbstr):", "        if requested_memory_len and requested_memory_len < len(cbstr):"))
+brk("c17-empty-check-dropped", ["C17"], (C, "        if len(cbstr) < 1:\n            raise ValueError(\"The cbstr parsed object is empty\")\n", "        if len(cbstr) < 0:\n            raise ValueError(\"The cbstr parsed object is empty\")\n"))
+ben("c17-validate-with-marker", ["C17"], (C, "        # Ensure that cbor2.loads() will not consume all the available memory\n        SuitObject.validate_cbor(cbstr)\n", "        size = len(cbstr)\n        logger.debug(size)\n        SuitObject.validate_cbor(cbstr)\n"))
+ben("c17-length-check-flipped-form", ["C17"], (C, "        if requested_memory_len and requested_memory_len > len(cbstr):", "        if requested_memory_len and len(cbstr) < requested_memory_len:"))
+ben("c17-empty-check-eq0", ["C17"], (C, "        if len(cbstr) < 1:", "        if len(cbstr) == 0:"))
 ben("c17-isinstance-tuple", ["C17"], (C, "        if not isinstance(bitval, int):\n            raise ValueError(f\"Unable to create bitfield from: {bitval}\")\n", "        if not isinstance(bitval, (int, bool)):\n            raise ValueError(f\"Unable to create bitfield from: {bitval}\")\n"))
 ben("c17-len-guard-form", ["C17"], (C, "                if index >= len(value_list):\n                    raise ValueError(f\"Incomplete list. Missing: {key}\")\n", "                if not index < len(value_list):\n                    raise ValueError(f\"Incomplete list. Missing: {key}\")\n"))
 ben("c17-embedded-or-empty", ["C17"], (C, "                if not cls._metadata.embedded:\n                    raise ValueError(f\"Unknown parameter: {k}\")\n                for item in cls._metadata.embedded:", "                if not cls._metadata.embedded:\n                    raise ValueError(f\"Unknown parameter: {k}\")\n                for item in cls._metadata.embedded or []:"))
